@@ -65,18 +65,23 @@ def run(ctx):
     doubles = sorted((t for t in g2.traces if nfaults(t) > 1), key=key)
     ctx.note("tlc_generation", {"cfg": "Gen_large.cfg", "distinct": g2.distinct, "generated": g2.generated, "behaviours": len(g2.traces)})
     # every 2-fault placement is model-checked; the replay takes a seeded sample of them (a child process,
-    # a byte comparison and a DuckDB query per cycle): 20 in quick, 350 in thorough (VERIF_C12_DOUBLES=all for all)
-    want = os.environ.get("VERIF_C12_DOUBLES", "20" if ctx.quick() else "350")
+    # a byte comparison and a DuckDB query per cycle): 12 in quick, 350 in thorough (VERIF_C12_DOUBLES=all for all)
+    want = os.environ.get("VERIF_C12_DOUBLES", "12" if ctx.quick() else "350")
     rnd = random.Random(ctx.seed)
     pick = doubles if want == "all" else rnd.sample(doubles, min(int(want), len(doubles)))
     g3 = ctx.tlc("tiering", "Tiering", "Gen_overlap.cfg", timeout=900, workers=2)
     if not g3.traces:
         raise InfraError("overlap generator emitted nothing")
     overlap = sorted(g3.traces, key=key)
-    scs = singles + overlap + pick
-    ctx.note("behaviours", {"<=1 fault": len(singles), "<=1 fault, candidate list worked twice": len(overlap), "2 faults": len(doubles), "2 faults replayed": len(pick)})
-    ctx.log("replaying %d behaviours (%d with <=1 fault, %d with <=1 fault and a second pass, %d of %d with 2 faults)"
-            % (len(scs), len(singles), len(overlap), len(pick), len(doubles)))
+    g4 = ctx.tlc("tiering", "Tiering", "Gen_aging.cfg", timeout=900, workers=2)
+    aging = sorted((t for t in g4.traces if any(c["ended"] == "aged" for c in t["cycles"])), key=key)
+    if not aging:
+        raise InfraError("aging generator emitted nothing")
+    scs = singles + overlap + aging + pick
+    ctx.note("behaviours", {"<=1 fault": len(singles), "<=1 fault, candidate list worked twice": len(overlap),
+                              "<=1 fault, then the 48 h reconciliation window elapses": len(aging), "2 faults": len(doubles), "2 faults replayed": len(pick)})
+    ctx.log("replaying %d behaviours (%d with <=1 fault, %d with <=1 fault and a second pass, %d with the window elapsed, %d of %d with 2 faults)"
+            % (len(scs), len(singles), len(overlap), len(aging), len(pick), len(doubles)))
     sp = ctx.path("scenarios.json")
     json.dump(scs, open(sp, "w"))
     binp, childp = builds.result()
